@@ -33,6 +33,10 @@ static FILE *hx_out;
 #define printf(...) fprintf(hx_out, __VA_ARGS__)
 #include "hx.h"
 #include <stddef.h>
+#include <signal.h>
+#include <unistd.h>
+static void hx_on_alarm(int sig) { static const char m[] = "HANG: request did not finish within the time limit\n"; (void)sig; if (write(2, m, sizeof(m) - 1)) {} _exit(3); }
+#define HX_LIMIT_S 60
 /* the default emitter is included as source after builder.c so that its page allocator can be made to fail at the k-th
    page allocation (`af` requests); emitter.c is therefore NOT linked separately */
 static long hx_live = 0, hx_allocs = 0, hx_fail_at = -1;
@@ -209,6 +213,7 @@ int main(void) {
     for (i = 0; i < sizeof(pattern); ++i) pattern[i] = (uint8_t)((i * 131u + (i >> 8) * 17u + 1u) & 0xff);
     while ((line = hx_getline())) {
         hx_out = open_memstream(&obuf, &olen);
+        signal(SIGALRM, hx_on_alarm); alarm(HX_LIMIT_S);
         n = hx_split(line, t, 32);
         if (n == 5 && (!strcmp(t[0], "ef") || !strcmp(t[0], "eb"))) {
             flatcc_builder_t B; struct rec r; iov_state_t iov; flatcc_builder_ref_t ret; char *p = t[4]; static uint8_t dummy[8];
